@@ -47,7 +47,7 @@ type c07Case struct {
 	Ops      []c07Op   `json:"ops"`
 }
 
-// Cases with a windowed cache whose generations may overflow the context: every 8th of the first indices.
+// Cases with a windowed cache whose generations may overflow the context: every 7th of the first indices.
 const c07SWAShiftCases = 2048
 
 func c07RandText(r *kit.Rand, letters, n int) string {
@@ -82,7 +82,7 @@ func c07Gen(r *kit.Rand, idx int) *c07Case {
 	if cfg.Kind == "swa" || cfg.Kind == "wrapper" {
 		cfg.Window = r.Range(2, 10)
 	}
-	cs.SWAShift = cfg.Window > 0 && idx < c07SWAShiftCases && idx%8 == 0
+	cs.SWAShift = cfg.Window > 0 && idx < c07SWAShiftCases && idx%7 == 0
 	letters := cfg.Vocab - 1
 	n := r.Range(3, 10)
 	if r.Chance(1, 7) {
@@ -172,9 +172,12 @@ func c07Gen(r *kit.Rand, idx int) *c07Case {
 			// Sliding window + context shift is the upstream TODO in Causal.Remove (the shifted window
 			// reaches entries that were already evicted). It runs as its own bounded sub-workload
 			// (SWAShift) so that it cannot use up the violation budget of everything else.
-			for e.Shifts > 0 {
+			if e.Shifts > 0 {
 				q.NumPredict = max(1, cfg.NumCtx-e.PromptEval+1)
 				e = c07Reference(cfg, q)
+			}
+			if e.Shifts > 0 {
+				panic("c07 generator: could not avoid the context shift")
 			}
 		}
 		hist = append(hist, past{q.Prompt, e.Text})
@@ -263,7 +266,7 @@ func c07Fresh(cfg *c07Cfg, q *c07Req, out *c07Outcome) (c07Result, *c07Viol, str
 	fq := &c07Req{Idx: q.Idx, Prompt: q.Prompt, NumPredict: q.NumPredict, NumKeep: q.NumKeep, Stop: q.Stop}
 	w.start(fq)
 	fe := c07Reference(cfg, q)
-	ok := w.drain([]*c07Req{fq}, 2000+4*(fe.PromptEval+fe.Eval))
+	ok := w.drain([]*c07Req{fq}, 2000+4*(fe.PromptEval+fe.Eval+fe.Shifts*cfg.NumCtx))
 	out.absorb(w, "fresh_")
 	if v := w.violation(); v != nil {
 		w.abandon([]*c07Req{fq})
@@ -291,7 +294,7 @@ func c07RunCase(cs *c07Case) *c07Outcome {
 	}
 	maxSteps := 2000
 	for _, e := range exp {
-		maxSteps += 4 * (e.PromptEval + e.Eval + 8)
+		maxSteps += 4 * (e.PromptEval + e.Eval + 8 + e.Shifts*cfg.NumCtx) // a failed shift reprocesses the whole window
 	}
 	finish := func() *c07Outcome {
 		out.absorb(w, "")
